@@ -350,6 +350,12 @@ func init() {
 		Run: func(seed uint64, idx int, tier string) *fw.Result {
 			c := c02Build(seed, idx, tier)
 			p := c02Prog(c.kind, c.min, c.max, c.mode, c.unknown, idx%2 == 0)
+			if idx%6 == 2 {
+				// bound to a variable that is set: GetEnv is documented as a no-op for multi-value options
+				m := p.Root.Opts[0]
+				m.Env, m.EnvSet = "VERIF_E0", true
+				m.EnvVal = map[Kind]string{KStrings: "fromenv", KInts: "77", KFloats: "7.5", KMap: "envk=envv"}[c.kind]
+			}
 			if c.kind == KMap && idx%5 == 3 {
 				p.MapLower, p.LateMapLower = true, idx%10 == 3 // keys folded to lower case, the setter called before or after the command exists
 			}
